@@ -38,14 +38,20 @@ type c09Case struct {
 	// ("ca-swap": Stop, SetTLSCaCertFile, Start; "ca-swap-restart": SetTLSCaCertFile,
 	// Restart; "cfg-replaced": the same through SetTLSConfig). From then on only
 	// certificates of the new CA are acceptable.
-	Reconf  string `json:"reconfigured,omitempty"`
-	Choices []int  `json:"choices,omitempty"`
+	Reconf string `json:"reconfigured,omitempty"`
+	// Resume: the client under test keeps a TLS session cache and connects three times;
+	// the later connections resume the session of the first and are judged like it.
+	Resume  bool  `json:"resume,omitempty"`
+	Choices []int `json:"choices,omitempty"`
 }
 
 func (c c09Case) name() string {
 	n := fmt.Sprintf("%s|%s|%s|between=%v|plain=%v|burst=%v|viacfg=%v", c.Config, c.Cred, c.Fault, c.Between, c.Plain, c.Burst, c.ViaCfg)
 	if c.Reconf != "" {
 		n += "|" + c.Reconf
+	}
+	if c.Resume {
+		n += "|resume"
 	}
 	return n
 }
@@ -103,6 +109,7 @@ type c09Client struct {
 }
 
 type c09World struct {
+	cache   tls.ClientSessionCache // of the client under test (Resume)
 	cs      c09Case
 	kit     *tlsKit
 	srv     *redis.Server
@@ -161,7 +168,11 @@ func (w *c09World) tlsClient(role, cred string, fault string) *c09Client {
 	if fault == "abort-after-hello" {
 		conn = &abortConn{Conn: raw}
 	}
-	tc := tls.Client(conn, w.kit.clientTLSConfig(w.kit.Clients[cred]))
+	ccfg := w.kit.clientTLSConfig(w.kit.Clients[cred])
+	if strings.HasPrefix(role, "F") && w.cache != nil {
+		ccfg.ClientSessionCache = w.cache
+	}
+	tc := tls.Client(conn, ccfg)
 	if err := tc.Handshake(); err != nil {
 		cl.hs = "handshake-failed"
 		raw.Close()
@@ -169,6 +180,9 @@ func (w *c09World) tlsClient(role, cred string, fault string) *c09Client {
 		return cl
 	}
 	cl.hs = "handshake-ok"
+	if tc.ConnectionState().DidResume {
+		cl.hs = "handshake-ok(resumed)"
+	}
 	c := sched.Wrap(tc, raw)
 	do := func(args ...string) string {
 		o := c.Do(args...)
@@ -218,6 +232,9 @@ func (w *c09World) body() {
 		return
 	}
 	w.kit = kit
+	if w.cs.Resume {
+		w.cache = tls.NewLRUClientSessionCache(8)
+	}
 	d := srv.NewDouble()
 	d.ContentTokens = true
 	w.double = d
@@ -289,6 +306,10 @@ func (w *c09World) body() {
 		vrt.WaitQuiet()
 	} else {
 		step("clientF", func() { w.tlsClient("F", w.cs.Cred, w.cs.Fault) })
+		if w.cs.Resume {
+			step("clientF2", func() { w.tlsClient("F2", w.cs.Cred, w.cs.Fault) })
+			step("clientF3", func() { w.tlsClient("F3", w.cs.Cred, w.cs.Fault) })
+		}
 		step("clientV2", func() { w.tlsClient("V2", w.cs.goodCred(), "complete") })
 	}
 	if w.cs.Plain {
@@ -330,10 +351,14 @@ func (w *c09World) verdict(r *vrt.Result) sched.Verdict {
 		return nil
 	}
 	// the faulty client
-	if f := find("F"); f != nil {
+	for _, fr := range []string{"F", "F2", "F3"} {
+		f := find(fr)
+		if f == nil {
+			continue
+		}
 		accepted := w.cs.Fault == "complete" && w.cs.accepted(w.cs.Cred)
-		if !accepted && called("F") {
-			return fail("gate:command-executed-for-rejected-client", fmt.Sprintf("a command of the client with credential %q (fault %s, configuration %s) reached the handler", w.cs.Cred, w.cs.Fault, w.cs.Config))
+		if !accepted && called(fr) {
+			return fail("gate:command-executed-for-rejected-client", fmt.Sprintf("a command of the client with credential %q (connection %s, %s; fault %s, configuration %s) reached the handler", w.cs.Cred, fr, f.hs, w.cs.Fault, w.cs.Config))
 		}
 		if !accepted {
 			for _, rp := range f.replies {
@@ -342,7 +367,7 @@ func (w *c09World) verdict(r *vrt.Result) sched.Verdict {
 				}
 			}
 		}
-		if accepted && !called("F") {
+		if accepted && !called(fr) {
 			return fail("gate:accepted-client-not-served", fmt.Sprintf("client with credential %q must be served under configuration %s but its command never reached the handler", w.cs.Cred, w.cs.Config))
 		}
 	}
@@ -419,6 +444,12 @@ func c09Cases() []c09Case {
 			out = append(out, c09Case{Config: cfg, Cred: cred, Fault: "complete", Plain: true, ViaCfg: true})
 		}
 	}
+	// a client with a session cache connecting three times (the later connections resume)
+	for _, cfg := range c09Configs {
+		for _, cred := range []string{"wrong-name", "name-on-intermediate", "wrong-name+forged-extra", "valid"} {
+			out = append(out, c09Case{Config: cfg, Cred: cred, Fault: "complete", Plain: true, Resume: true})
+		}
+	}
 	// the trusted CA replaced between two runs of the same server object
 	for _, re := range []string{"ca-swap", "ca-swap-restart", "cfg-replaced"} {
 		for _, cfg := range c09Configs {
@@ -448,6 +479,9 @@ func c09Run(c *fw.Ctx) {
 }
 
 func c09Key(cs c09Case, clause string) string {
+	if cs.Resume {
+		return "C09|" + cs.Config + "|resume|" + cs.Cred + "/" + cs.Fault + "|" + clause
+	}
 	if cs.Reconf != "" {
 		return "C09|" + cs.Config + "|" + cs.Reconf + "|" + cs.Cred + "/" + cs.Fault + "|" + clause
 	}
